@@ -149,19 +149,31 @@ namespace
             SimHeap& h = heap();
             h.reset();
             h.capacity = 1 << 20;
+            // the seam itself is exercised here (posix_memalign/free called from harness code in client scope), never
+            // through the allocator under test: a broken allocator must surface as a violation, not as a self-test failure
             h.begin_call(0, false);
-            AllocResult r = clients[0]->allocate(10);
-            if (!r.p || !h.in_arena(r.p) || h.live_blocks() != 1)
-                throw std::runtime_error("C18 self-test: allocation did not go through the simulated heap (link-time wrap missing?)");
-            clients[0]->deallocate(r.p, 10);
+            void* p = nullptr;
+            int rc;
+            {
+                ClientScope cs;
+                rc = posix_memalign(&p, 64, 10);
+            }
+            if (rc != 0 || !p || !h.in_arena(p) || h.live_blocks() != 1)
+                throw std::runtime_error("C18 self-test: posix_memalign did not go through the simulated heap (link-time wrap missing?)");
+            {
+                ClientScope cs;
+                free(p);
+            }
             if (h.live_blocks() != 0)
                 throw std::runtime_error("C18 self-test: free did not reach the simulated heap");
             // injected failure must surface
             h.begin_call(1, true);
-            AllocResult f = clients[0]->allocate(10);
-            if (h.injected_fired != 1)
+            {
+                ClientScope cs;
+                rc = posix_memalign(&p, 64, 10);
+            }
+            if (rc == 0 || h.injected_fired != 1)
                 throw std::runtime_error("C18 self-test: injected ENOMEM did not fire");
-            (void)f;
             h.reset();
         }
 
@@ -852,11 +864,9 @@ namespace
                     if (op.fault.empty())
                         j.set("fault", Value());
                     else
-                    {
-                        Value f = Value::object();
-                        f.set("kind", op.fault).set("memptr", op.clobber ? "clobber" : "keep");
-                        j.set("fault", f);
-                    }
+                        j.set("fault", Value::object().set("kind", op.fault));
+                    // what the heap does to *memptr if this request fails (injected or by genuine exhaustion)
+                    j.set("memptr_on_failure", op.clobber ? "clobber" : "keep");
                     break;
                 case OP_DEALLOCATE:
                 case OP_WRITE_ALL:
@@ -912,10 +922,8 @@ namespace
                     op.n = j.at("n").as_u64();
                     op.n_family = j.get_str("family", "");
                     if (j.has("fault") && j.at("fault").type == Value::Object)
-                    {
                         op.fault = j.at("fault").get_str("kind", "enomem_coin");
-                        op.clobber = j.at("fault").get_str("memptr", "keep") == "clobber";
-                    }
+                    op.clobber = j.get_str("memptr_on_failure", "keep") == "clobber";
                 }
                 else if (op.kind == OP_COMPARE)
                 {
